@@ -39,12 +39,13 @@ type schemaRule struct {
 }
 
 type c16Plan struct {
-	Mode  string       `json:"mode"` // pickle | grafananet
-	Lines []string     `json:"lines_head"`
-	N     int          `json:"lines"`
-	Rules []schemaRule `json:"schemas,omitempty"`
-	OrgID int          `json:"orgId,omitempty"`
-	IOBuf int          `json:"iobuf,omitempty"`
+	Mode      string       `json:"mode"` // pickle | grafananet
+	Companion bool         `json:"second_pickle_destination"`
+	Lines     []string     `json:"lines_head"`
+	N         int          `json:"lines"`
+	Rules     []schemaRule `json:"schemas,omitempty"`
+	OrgID     int          `json:"orgId,omitempty"`
+	IOBuf     int          `json:"iobuf,omitempty"`
 }
 
 var c16Vals = []string{"1", "0", "-1.5", "1e3", "+5", ".5", "0x1p-2", "NaN", "Inf", "-Inf", "1e400", "123456789.125", "1.", "5e-324", "1_0", "x", "0x10"}
@@ -125,6 +126,10 @@ func scenC16(x *Exec) {
 
 	if p.Mode == "pickle" {
 		p.IOBuf = []int{4096, 1, 7, 64, 65536}[g.Pick(5)]
+		p.Companion = g.Bool(0.5)
+		if p.Companion && cfg.PreemptP < 0.2 {
+			cfg.PreemptP, cfg.MaxBudget, cfg.SwitchP = 0.3, []int{3, 10, 40}[g.Pick(3)], 0.5
+		}
 		x.Out.Sample = p
 		type frame struct {
 			Hex  string `json:"hex"`
@@ -162,10 +167,46 @@ func scenC16(x *Exec) {
 			for !dest.Online {
 				simrt.Sleep(time.Millisecond)
 			}
+			// a second pickle-mode destination works at the same time (encoders must not share state between connections)
+			companionDone := true
+			if p.Companion {
+				companionDone = false
+				ep2 := NewEndpoint(s, nw, "10.1.1.2:2003")
+				ep2.Start()
+				d2 := defaultDestCfg("10.1.1.2:2003")
+				d2.Pickle, d2.FlushMs, d2.IOBuf = true, 20, []int{1, 7, 4096}[len(lines)%3]
+				var dest2 *destination.Destination
+				ready := false
+				s.Spawn("relay-boot2", "relay", "relay1", func() {
+					dd, err := d2.build("r", matcher.Matcher{})
+					if err == nil {
+						dd.Run()
+						dest2 = dd
+					}
+					simrt.Yield("boot2")
+					ready = true
+					cond.Broadcast()
+				})
+				cond.Wait(func() bool { return ready }, time.Time{})
+				if dest2 != nil {
+					s.Spawn("companion", "client", "harness", func() {
+						for i := 0; i < 2*len(lines)+10; i++ {
+							dest2.In <- []byte(fmt.Sprintf("companion.series.with.a.long.name.%d %d.25 %d", i, i, 1400000000+i))
+							simrt.Yield("handoff2")
+						}
+						companionDone = true
+						cond.Broadcast()
+					})
+				} else {
+					companionDone = true
+				}
+				s.Probe("c16.two_pickle_destinations")
+			}
 			for _, l := range lines {
 				dest.In <- []byte(l)
 				simrt.Yield("handoff")
 			}
+			cond.Wait(func() bool { return companionDone }, time.Now().Add(time.Minute))
 			simrt.Sleep(300 * time.Millisecond)
 			simrt.Quiesce()
 			key := d.key("r")
